@@ -282,7 +282,8 @@ ADDENDA = {
            "alteration of existing objects is judged by identity of constituent namespaces and by the type of every "
            "field, not by ==. "
            "Also every tree in which one class lists a plain, non-render mixin before or after its render base: class tables for every tree x owner subset x position; operator histories to depth 2 in quick, and in thorough to depth 3 for <= 3 classes (4-class trees: mixin first, depth 2). "
-           "The unknown-field menu of ns.update / RenderArgs.update(cls, **fields) / Args(**fields) includes non-field names that are attributes of the namespace class (as_dict, _FIELDS, update, get_fields, get_render_cls, __doc__), each required to raise UnknownArgsFieldError and change nothing.",
+           "The unknown-field menu of ns.update / RenderArgs.update(cls, **fields) / Args(**fields) includes non-field names that are attributes of the namespace class (as_dict, _FIELDS, update, get_fields, get_render_cls, __doc__), each required to raise UnknownArgsFieldError and change nothing. "
+           "A library exception raised for a rejected set must also belong to the documented RenderArgsError family (clause wrong-error-family).",
     "C17": " Also tall-narrow sources (columns < rows), off-grid pixel sizes at two cell sizes, the global cell ratio "
            "{0.25, 1.0, 2.0, ...}, canvases trimmed after their image was rendered again at another size, and pairs of "
            "content() iterators advanced in lock step. "
@@ -366,7 +367,8 @@ ADDENDA = {
            "change, UrwidImage-then-format-then-ImageIterator ordering, and rejected specifiers on live / closed / "
            "file-missing images (documented error wins, source not opened). "
            "A user-defined style with grouped field patterns written against the documented subclass hooks, with its own reference sub-grammar and exhaustive pass; iterm2 RGBA file sources decoded from the payload under each transparency setting. "
-           "A colour-field family with near-miss characters; base-part rejections must carry the documented 'Invalid format specifier' message; long zero-padded and out-of-range z-index digit strings.",
+           "A colour-field family with near-miss characters; base-part rejections must carry the documented 'Invalid format specifier' message; long zero-padded and out-of-range z-index digit strings. "
+           "The single-edit pass also inserts / substitutes the str.format and %-formatting metacharacters { } % (rejected specifiers are quoted in the error message).",
     "C20": " Class trees include mixin-first and mixin-last multiple inheritance, a diamond, the library's real abstract "
            "ancestry (BaseImage / GraphicsImage / TextImage) for forced support, and a subclass with a derived metaclass; "
            "the reference resolves along Python's MRO computed on a shadow hierarchy. Values include negative jpeg "
